@@ -224,6 +224,8 @@ def cases(tier):
     if tier == "thorough":
         lens = [(lr, lp, ldr, ldp) for lr in range(4) for lp in range(4) for ldr in range(2) for ldp in range(2)
                 if lr + lp + ldr + ldp <= 5]
+    # delayed parts with more than one entry (a species delivered twice, a species that is delayed reactant and delayed product)
+    lens += [(1, 0, 0, 2), (1, 1, 1, 2), (0, 1, 2, 0), (1, 0, 2, 2)] if tier == "thorough" else [(1, 0, 0, 2), (1, 0, 2, 1)]
     for i, L in enumerate(lens):
         for j, o in enumerate(orders):
             if tier == "quick" and (i + j) % 3:
